@@ -441,18 +441,22 @@ class Monitors:
             ctx.event('_chop')
             case = {'time': [repr(float(x)) for x in t], 'wavelength': [repr(float(x)) for x in w],
                     'cut_at': repr(float(T)), 'keeps': 't >= cut' if lower else 't <= cut'}
+            tscale = max(np.max(np.abs(t)), abs(T), LD(1e-300))
+            margin = (t - T if lower else T - t) / tscale  # > 0: on the transmitted side
             if res is None:
-                if ins.any():
-                    ctx.violation('clip_dropped_polygon', '_chop returned None although a vertex is inside', case)
+                # a polygon that only touches the cut (measure zero) may be dropped or kept
+                if (margin > BAND).any():
+                    ctx.violation('clip_dropped_polygon', '_chop returned None although a vertex is clearly inside',
+                                  case)
                 return
             rt = _in(res.time, 's')
             rw = _in(res.wavelength, 'angstrom')
             case['result_time'] = [repr(float(x)) for x in rt]
             case['result_wavelength'] = [repr(float(x)) for x in rw]
-            if not ins.any():
-                ctx.violation('clip_invented_polygon', '_chop returned a polygon although no vertex is inside', case)
+            if (margin < -BAND).all():
+                ctx.violation('clip_invented_polygon', '_chop returned a polygon although every vertex is clearly '
+                              'outside', case)
                 return
-            tscale = max(np.max(np.abs(t)), abs(T), LD(1e-300))
             lscale = np.max(np.abs(w))
             # (a) nothing on the wrong side of the cut
             excess = np.max((T - rt) if lower else (rt - T)) / tscale
@@ -469,7 +473,7 @@ class Monitors:
                               '(normalised) away from the boundary of the clipped polygon', case)
                 return
             # (c) input vertices clearly inside are kept
-            clear = (t - T if lower else T - t) / tscale > BAND
+            clear = margin > BAND
             if clear.any():
                 dd = np.sqrt(((t[clear, None] - rt[None, :]) / tscale) ** 2
                              + ((w[clear, None] - rw[None, :]) / lscale) ** 2).min(axis=1)
